@@ -1,31 +1,26 @@
-# Per-property configuration of ./check.
-#  modules   : Lean modules holding the property theorems (built on every run)
-#  theorems  : the REQUIRED obligations (fully qualified); a missing one is a broken obligation
-#  partial   : theorems that prove less than the statement -> what they leave out
-#  n         : random cases per tier (on top of corpus + exhaustive streams)
-#  rule      : how cases are generated and what makes one non-trivial
-#  gen       : Gen/*.lean files regenerated from /repo by `corr extract`
+# Loads the per-property configuration modules checklib/props/Cxx.py.
+# Each defines CFG (used by ./check) and LEVEL (used by mkmanifest.py):
+#  CFG.modules   : Lean modules holding the property theorems (built on every run)
+#  CFG.theorems  : the REQUIRED obligations (fully qualified); a missing one is a broken obligation
+#  CFG.partial   : {theorem: what it leaves out} for theorems proving less than the statement
+#  CFG.n         : random cases per tier (on top of corpus + exhaustive streams)
+#  CFG.rule      : how cases are generated and what makes one non-trivial
+#  CFG.gen       : Gen/*.lean files regenerated from /repo by `cXX extract <name>`
+#  CFG.rustgen   : True if the harness bin has a native `gen`
+import os, importlib.util
 COMMON_TB = [
     "Lean 4.33.0 kernel (thorough tier: re-checked with leanchecker)",
     "axioms: at most propext, Classical.choice, Quot.sound (audited with #print axioms on every run)",
-    "Lean compiler/runtime for the executable side of the model (driver parsley_model)",
+    "Lean compiler/runtime for the executable side of the model (driver parsley_model_<id>)",
     "correspondence harness /verif/harness (canonicalisation, catch_unwind) and ./check (diff, shrink)",
 ]
-
-PROPS = {
-    "C19": {
-        "modules": ["Parsley.Props.C19"],
-        "theorems": [
-            "Parsley.C19.uint_parse_spec", "Parsley.C19.int_parse_spec", "Parsley.C19.bytevec_spec",
-            "Parsley.C19.comb_no_overflow", "Parsley.C19.bin_never_panics", "Parsley.C19.pair_sat",
-        ],
-        "n": {"quick": 3000, "thorough": 400000},
-        "exhaustive": {"quick": False, "thorough": True},
-        "rule": "all 8-bit patterns; 16-bit patterns (stride 13 quick / all 65536 thorough) x {u16,i16} x {be,le}; every "
-                "remaining-length 0..w+1 for every width/endian/signedness; boundary 32/64-bit patterns; random buffers "
-                "<= 11 bytes x random cursor x random parser; non-trivial = multi-byte parser with >=2 bytes of buffer or a non-zero cursor",
-        "trusted_base": COMMON_TB + [
-            "modelled, not verified: ParseBuffer::peek/incr_cursor_unsafe/set_cursor_unsafe/extract as list indexing on a whole buffer (views: C17)"],
-        "assumptions": ["the buffer is an unrestricted ParseBuffer (restricted views are covered by C17)"],
-    },
-}
+PROPS, LEVELS = {}, {}
+_d = os.path.join(os.path.dirname(os.path.abspath(__file__)), "props")
+for _f in sorted(os.listdir(_d)):
+    if _f.endswith(".py") and _f[0] == "C":
+        _s = importlib.util.spec_from_file_location(_f[:-3], os.path.join(_d, _f))
+        _m = importlib.util.module_from_spec(_s)
+        _m.COMMON_TB = COMMON_TB
+        _s.loader.exec_module(_m)
+        PROPS[_f[:-3]] = _m.CFG
+        LEVELS[_f[:-3]] = _m.LEVEL
